@@ -54,7 +54,7 @@ def world(decisions, module):
     from malt.impl import api
     run = mp.Run(decisions)
     if not _marked:
-        for nm in ('T', 'D', 'I', 'CM', 'O', 'KV', 'DEC'):
+        for nm in ('T', 'D', 'I', 'I2', 'CM', 'O', 'KV', 'DEC'):
             api.autograph_artifact(getattr(run, nm))     # marks the underlying function objects once
         _marked = True
     for k, v in run.ns().items():
